@@ -386,10 +386,11 @@ class Exec:
         return If(c, self.box(a), self.box(b))
 
     def ev_Compare(self, e, st):
-        if len(e.ops) != 1:
-            raise OutOfSubset('chained comparison')
-        a, b = self.ev(e.left, st), self.ev(e.comparators[0], st)
-        return self.compare(type(e.ops[0]), a, b, st, e)
+        vals = [self.ev(e.left, st)] + [self.ev(c, st) for c in e.comparators]
+        if len(e.ops) == 1:
+            return self.compare(type(e.ops[0]), vals[0], vals[1], st, e)
+        # a < b < c : every operand is evaluated once; here all operands are side-effect free
+        return And(*[self.compare(type(op), vals[k], vals[k + 1], st, e) for k, op in enumerate(e.ops)])
 
     def compare(self, op, a, b, st, node=None):
         if op in (ast.Is, ast.IsNot, ast.Eq, ast.NotEq):
@@ -596,6 +597,10 @@ class Exec:
                     return v.n
                 if isinstance(v, ArrList):
                     return v.n
+                if isinstance(v, DictV):
+                    sz = self.fv('dictsize', I)      # size of a dict is not tracked: any non-negative integer
+                    st.assume(sz >= 0)
+                    return sz
                 if isinstance(v, Tup):
                     return IntVal(len(v.items))
                 if isinstance(v, StrLit):
@@ -620,6 +625,10 @@ class Exec:
                 return self.list_method(e, f.value.id, f.attr, st)
             if isinstance(f.value, ast.Name) and isinstance(st.env.get(f.value.id), ArrList) and f.attr in ('append', 'pop'):
                 return self.arrlist_method(e, f.value.id, f.attr, st)
+            if isinstance(f.value, ast.Name) and isinstance(st.env.get(f.value.id), DictV) and f.attr == 'clear' and not e.args:
+                d = st.env[f.value.id]
+                st.env[f.value.id] = DictV(z3.K(Val, BoolVal(False)), d.map)
+                return NONE
             recv = self.ev(f.value, st)
             h = self.method_hooks.get(f.attr)
             if h is not None:
